@@ -148,7 +148,7 @@ pub fn analyse_after(dic: &Arc<JapaneseDictionary>, warm: &[String], text: &str,
 /// which variant of `JoinNumericPlugin::rewrite_gen` the harness is built against (Lean `NVariant`):
 /// `fix` = a COMMA/POINT error restarts the run only if the flag was still set (repair of F2),
 /// `cur` = the loop of the pinned tree.  Probed in the source of the linked sudachi crate.
-fn numeric_variant() -> &'static str {
+pub(crate) fn numeric_variant() -> &'static str {
     static V: std::sync::OnceLock<&'static str> = std::sync::OnceLock::new();
     *V.get_or_init(|| {
         let p = format!("{}/src/plugin/path_rewrite/join_numeric/mod.rs", crate::c07::repo_sudachi_dir());
